@@ -194,6 +194,21 @@ pub struct ArtStore {
     pub ack_after_partial_output: bool,
     /// requests at an offset >= .0 (> 0) are answered with ACK code .1: the file vanished / changed while it was loaded
     pub ack_from_offset: Option<(usize, u64)>,
+    /// chunk sizes of continuation requests (empty: always `limit`): a server may hand out fewer bytes than its limit,
+    /// and the limit may be lowered by another client handle while a picture is being loaded
+    pub later_chunks: Vec<usize>,
+}
+
+impl ArtStore {
+    /// number of bytes the server hands out for a request at `offset` (a function of the offset, so that the checker
+    /// can recompute it)
+    pub fn chunk_len(&self, offset: usize) -> usize {
+        if offset == 0 || self.later_chunks.is_empty() {
+            self.limit.max(1)
+        } else {
+            self.later_chunks[offset % self.later_chunks.len()].max(1).min(self.limit.max(1))
+        }
+    }
 }
 
 #[derive(Clone, Debug)]
@@ -855,7 +870,7 @@ impl World {
                 if offset > data.len() {
                     return Err(ack(2, "Bad file offset".into()).into());
                 }
-                let end = (offset + art.limit.max(1)).min(data.len());
+                let end = (offset + art.chunk_len(offset)).min(data.len());
                 let mut fields = vec![("size".to_string(), format!("{}", data.len()))];
                 if let Some(m) = mime {
                     fields.push(("type".to_string(), m));
@@ -948,11 +963,15 @@ impl AsyncRead for SimIo {
         // faults on the read side
         match g.cfg.fault.clone() {
             Fault::ReadErrAfter(k) if g.s2c_delivered >= k => {
+                // the kind of the error varies with the position: nothing may depend on it (a TLS layer reports a
+                // peer that went away without close_notify as UnexpectedEof, a socket timeout as TimedOut, ...)
+                const KINDS: [io::ErrorKind; 6] = [io::ErrorKind::ConnectionReset, io::ErrorKind::UnexpectedEof, io::ErrorKind::TimedOut, io::ErrorKind::ConnectionAborted, io::ErrorKind::Other, io::ErrorKind::BrokenPipe];
+                let kind = KINDS[(k % 6) as usize];
                 if !g.fault_fired {
                     g.fault_fired = true;
-                    g.push(EvKind::Fault(format!("reads fail (ConnectionReset) after {} bytes", k)));
+                    g.push(EvKind::Fault(format!("reads fail ({:?}) after {} bytes", kind, k)));
                 }
-                return Poll::Ready(Err(io::Error::new(io::ErrorKind::ConnectionReset, "injected read error")));
+                return Poll::Ready(Err(io::Error::new(kind, "injected read error")));
             }
             Fault::EofAfter(k) if g.s2c_delivered >= k => {
                 if !g.fault_fired {
@@ -1015,9 +1034,11 @@ impl AsyncWrite for SimIo {
             if call >= j {
                 if !g.fault_fired {
                     g.fault_fired = true;
-                    g.push(EvKind::Fault(format!("writes fail (BrokenPipe) from write call {}", j)));
+                    g.push(EvKind::Fault(format!("writes fail from write call {}", j)));
                 }
-                return Poll::Ready(Err(io::Error::new(io::ErrorKind::BrokenPipe, "injected write error")));
+                const WKINDS: [io::ErrorKind; 4] = [io::ErrorKind::BrokenPipe, io::ErrorKind::ConnectionReset, io::ErrorKind::WriteZero, io::ErrorKind::TimedOut];
+                let kind = WKINDS[g.write_calls % 4];
+                return Poll::Ready(Err(io::Error::new(kind, "injected write error")));
             }
         }
         let n = buf.len().min(g.cfg.write_cap.max(1));
